@@ -79,6 +79,17 @@ func VerifPools(on bool) { verifPoolsOn = on }
 // VerifBypassPools reports whether sync.Pool must not pool for the calling goroutine.
 func VerifBypassPools() bool { return getg().bubble != nil && !verifPoolsOn }
 
+// VerifClearPools empties every sync.Pool (primary and victim caches) the way two
+// garbage collections would, without collecting. The caller must be the only
+// running goroutine (one P): pool operations pin the P, so no other goroutine can be
+// in the middle of one.
+func VerifClearPools() {
+	if poolcleanup != nil {
+		poolcleanup()
+		poolcleanup()
+	}
+}
+
 // VerifGoid returns the calling goroutine's id.
 func VerifGoid() uint64 { return getg().goid }
 
